@@ -236,6 +236,8 @@ def gen_objective(rng, d, prof):
     feat = prof.get('features', {})
     s = symbols(d)
     sig = s['x'] + s['u'] + s['pc'] + s['pcp'] + s['vc'] + s['vcp'] + [('t',)]
+    if rng.random() < prof.get('horizon_in_signals', 0.3):
+        sig = sig + [('T',), ('t0',)]
     if d['nq']:
         sig_q = sig + [('xq', 0)]
     else:
@@ -250,7 +252,8 @@ def gen_objective(rng, d, prof):
     for _ in range(n):
         k = rng.choice(kinds)
         if k == 'integral':
-            e = poly(rng, sig, (1, 2), 2)
+            # horizon symbols inside an integrand end up in the ODE of the quadrature state: rejected by rockit (C20)
+            e = poly(rng, [a for a in sig if a[0] not in ('T', 't0')], (1, 2), 2)
         elif k in ('at_tf', 'at_t0'):
             e = poly(rng, [a for a in sig_q if a[0] not in ('u',)] or sig_q, (1, 2), 2)
         else:
@@ -281,6 +284,8 @@ def gen_constraints(rng, d, prof):
         grids.append('roots')
     decis = s['x'] + s['u'] + s['vc'] + s['vcp']
     sig = decis + s['pc'] + s['pcp'] + [('t',)] + s['p'] + s['v']
+    if rng.random() < prof.get('horizon_in_signals', 0.3):
+        sig = sig + [('T',), ('t0',)]
     cons = []
     for _ in range(ncons):
         g = rng.choice(grids)
